@@ -186,6 +186,12 @@ fn process_dir(
                 writeln!(&mut stderr(), "Error: {err}").unwrap();
             }
             Ok(entry) => {
+                // walkdir clamps min_depth to max_depth, and a broken link
+                // that it reports as an error becomes an entry whatever its
+                // depth: nothing above min_depth is to be examined.
+                if entry.depth() < config.min_depth {
+                    continue;
+                }
                 let mut matcher_io = matchers::MatcherIO::new(deps);
 
                 let new_dir = entry.path().parent().map(|x| x.to_path_buf());
